@@ -415,7 +415,7 @@ def _hazard_mask(expr, names, data, n_events):
     return mask
 
 
-def _condition_slack(expr, names, data, reference, n_events=3):
+def _condition_slack(expr, names, data, reference, n_events=3, reference_without_cse=None):
     """Element-wise allowance: |f(x(1+1e-12)) - f(x)| (inf where not finite, inf at events with
     an ordering hazard); returns (slack, ill_conditioned?, n_hazard_events)"""
     np = _np()
@@ -430,6 +430,14 @@ def _condition_slack(expr, names, data, reference, n_events=3):
                 one = np.abs(moved - ref)
             one = np.where(np.isfinite(one), one, np.inf)
             slack = one if slack is None else np.maximum(slack, one)
+            if reference_without_cse is not None and variant < 2:  # noqa: PLR2004
+                # the two code variants round differently: a product 0 * huge is exactly 0 along one route and
+                # noise along the other, so the response of *both* routes counts
+                ref_b = np.asarray(reference_without_cse, dtype=complex)
+                moved_b = np.asarray(_lambdify_eval(expr, names, _perturbed(data, variant), cse=False), dtype=complex)
+                with np.errstate(all="ignore"):
+                    other = np.abs(moved_b - ref_b)
+                slack = np.maximum(slack, np.where(np.isfinite(other), other, np.inf))
         scale = np.maximum(1.0, np.abs(ref))
         ill = bool(np.any(slack > TOL * np.where(np.isfinite(scale), scale, 1.0)))
         mask = _hazard_mask(expr, names, data, n_events)
@@ -1018,7 +1026,7 @@ def check_codegen(e, d, tree, labels, nontrivial):
                     note="cse moves a sub-expression of the bound integration variable out of the integrand",
                 )
             raise UnderTestError(f"lambdify(doit, cse={cse})", exc) from exc
-    slack, ill, n_hazard = _condition_slack(d, names, data, unfolded[True])
+    slack, ill, n_hazard = _condition_slack(d, names, data, unfolded[True], reference_without_cse=unfolded[False])
     if ill:
         labels.append("codegen:ill_conditioned")
     if n_hazard:
